@@ -779,6 +779,7 @@ template <class D> struct ObjHarness : Harness {
       if (bystander_sig(*R.pool[(size_t) b.first], R.probes) != b.second)
         ctx.violation("C14", "bystander-changed", klass(op), "an object not involved in the failed call changed representation");
     // 4b. a copy made BEFORE the call shares its disjuncts with the object that was hit
+    if (!cow.empty()) ctx.note("branch: copies taken before the call");
     for (auto& c : cow) {
       bool ok = c.second->OK();
       if (!ok || fingerprint(*c.second, R.probes) != fingerprint(*good[c.first], R.probes))
